@@ -10,12 +10,10 @@ import re
 import subprocess
 from . import common
 
-# violations whose tag is one of these are *families* decided by a predicate computed in the oracle
-# (lean/Oracle/C03.lean); everything else is keyed by its minimised operation sequence.
-FAMILY_TAGS = {
-    "array-next-after-clear", "next-zero-restarts-array", "reset-float-key-misses-hash",
-    "newindex-float-key-present", "assign-existing-rehashes", "closure-equal-hash-differs",
-}
+# tags of recorded defect families (decided by a predicate computed in the oracle).  Empty: the five C03
+# defects found by this check are repaired in /repo (known_findings.json `fixed:` lines); their witnesses
+# are ordinary regression cases in corpus/C03/witnesses.txt.
+FAMILY_TAGS = set()
 NONTRIVIAL_TAGS = ("arr+hash", "grow-hash", "grow-array", "trav-update")
 
 
@@ -199,9 +197,12 @@ def run(ctx):
     msgs = common.regen(ctx)
     for m in msgs:
         ctx.obligations.append({"name": "translate:" + m.split(":")[0].split(" ")[-1], "ok": False, "axioms": [], "note": m})
+    ctx.log("regenerated")
     common.prove(ctx)
+    ctx.log("theorems re-checked")
     common.build_oracle()
     h = common.build_go("c03", "cmd/c03")
+    ctx.log("oracle and harness built")
     cs = corpus_scripts()
     if cs:
         lines, verdicts = run_script(h, cs, ctx=ctx, timeout=60)
@@ -209,7 +210,9 @@ def run(ctx):
     lines, hung = run_bounded(h, ["gen", ctx.tier], timeout=90 if ctx.tier == "quick" else 3000)
     if hung:
         lines = report_hang(ctx, lines, "gen")
+    ctx.log("harness done: %d lines" % len(lines))
     verdicts = common.run_oracle("c03", lines, timeout=3000)
+    ctx.log("oracle done")
     evaluate(ctx, h, lines, verdicts, "gen")
     ctx.extra["protocol_lines"] = len(lines)
     ctx.extra["exhaustive"] = False
